@@ -205,9 +205,44 @@ def entry_rules(ctx, f, b, cfg):
     ctx.instance("C13.verdict/store", b.path, {"set_result_sites": len(sets), "problems": why}, "one store, inside the loop, guarded by is_blocked(res), storing res", okv, cfg)
     if not okv:
         ctx.violation("C13.verdict", "C13.verdict|store|" + ";".join(sorted(set(why))), "blocked-iff-some-slot-blocked broken: " + "; ".join(sorted(set(why))), b.loc(), config=cfg)
-    # returned value is the context's verdict
+    # ... and EVERY blocking return of a slot is stored: per iteration of the check loop, store iff that slot's result is Blocked
+    # (a second condition on the store - a ranking of reasons, a "first blocker wins" flag - lets an entry pass although a slot blocked)
+    if sets and chk_scc:
+        enum_ = f.adts.get("core::base::result::TokenResult")
+        vnames = [v["name"] for v in enum_["variants"]] if enum_ else []
+        chk_bbs = [bb for bb, t in b.calls() if callee_is(t, "RuleCheckSlot::check") and bb in chk_scc]
+
+        def cls_v(atoms, op=None):
+            if op is not None and discr_of_call(b, op, "Iterator::next"):
+                return "iter"
+            if "discr" in atoms and any_atom(atoms, "call:RuleCheckSlot::check") and not any_atom(atoms, "call:EntryContext::result"):
+                return "slot-result"
+            return make_classifier([])(atoms, op)
+        wv = D.Walker(f, b, cls_v)
+        wv.summarise_predicates = True
+        pv = []
+        for cb_ in chk_bbs:
+            its_ = {x for x, tt in b.calls() if callee_is(tt, "Iterator::next") and x in chk_scc}
+            pv += wv.walk(b.term(cb_)["target"], lambda bb, env: ("next",) if (bb in its_ or bb not in chk_scc) else None)
+
+        def out_v(p, asg):
+            return "stored" if any(x in sets for x in p["blocks"]) else "not-stored"
+
+        def exp_v(asg):
+            v = asg["disc"].get("slot-result")
+            if v == "other":
+                return "not-stored"      # `if let Blocked(_) = res { store }`: every unlisted variant
+            if not isinstance(v, int) or v >= len(vnames):
+                return None
+            return "stored" if vnames[v] == "Blocked" else "not-stored"
+        nv, ncv, mv = run_table(ctx, "C13.verdict/store-iff-blocked", b.path, cfg, pv, out_v, exp_v)
+        okt = not mv and ncv >= 2
+        ctx.instance("C13.verdict/store-iff-blocked", b.path, {"rows": nv, "constrained": ncv, "mismatches": mv[:3]}, "per check slot: its result is stored as the verdict iff it is Blocked", okt, cfg)
+        if not okt:
+            ctx.violation("C13.verdict", "C13.verdict|store-iff-blocked", "a check slot's Blocked result is not always stored as the entry's verdict (or a non-blocking one is): %s" % (mv[:2] or "test on the slot's result not found"), b.loc(), config=cfg)
+    # returned value is the context's verdict - and nothing else (a check slot's own result handed back directly can contradict it)
     at = sl.of_local(0)
-    okr = any_atom(at, "call:EntryContext::result")
+    okr = any_atom(at, "call:EntryContext::result") and not any_atom(at, "call:RuleCheckSlot::check")
     ctx.instance("C13.verdict/returned", b.path, "returns ctx.result(): %s" % okr, "true", okr, cfg)
     if not okr:
         ctx.violation("C13.verdict", "C13.verdict|returned", "SlotChain::entry does not return the context's verdict", b.loc(), config=cfg)
@@ -496,25 +531,68 @@ def slot_stores(ctx, f, cfg):
     names = [v["name"] for v in enum["variants"]] if enum else []
     n = 0
     for b in f.impl_methods("RuleCheckSlot", "check"):
+        b = f.view(f.raw(b))
         sl = Slicer(f, b)
-        for bb, t in b.calls():
-            if not callee_is(t, "EntryContext::set_result"):
-                continue
+        sites = [(bb, t) for bb, t in b.calls() if callee_is(t, "EntryContext::set_result")]
+        if not sites:
+            continue
+
+        def is_verdict_test(op, b=b):
+            """the operand tests (the discriminant of) a TokenResult value"""
+            pl = op_place(op) if op else None
+            for _ in range(5):
+                if pl is None:
+                    return False
+                if "TokenResult" in b.local_ty(pl["l"]) and "Option" not in b.local_ty(pl["l"]):
+                    return True
+                ds = b.defs().get(pl["l"], [])
+                if len(ds) != 1 or ds[0][0] != "assign":
+                    return False
+                rv = ds[0][3]["rv"]
+                pl = rv["pl"] if rv["k"] in ("discr", "ref") else (op_place(rv["op"]) if rv["k"] in ("use", "cast") else None)
+            return False
+
+        def cls(atoms, op=None, b=b):
+            if op is not None and discr_of_call(b, op, "Iterator::next"):
+                return "iter"
+            if op is not None and is_verdict_test(op):
+                lids = sorted(x for x in atoms if x.startswith("lid:"))
+                return "verdict:" + ",".join(lids[:3])
+            return make_classifier([])(atoms, op)
+        w = D.Walker(f, b, cls)
+        w.summarise_predicates = True
+        site_bbs = {bb for bb, t in sites}
+        paths = w.walk(0, lambda bb, env: ("store", bb) if bb in site_bbs else None)
+        for bb, t in sites:
             n += 1
             a = sl.of_operand(t["args"][1])
-            constructed = any(x.startswith("call:") and "TokenResult::new_blocked" in x for x in a) and not any(x.startswith("call:") and x.endswith(("new_should_wait", "new_pass")) for x in a)
-            arm = None
-            for d in b.dominators()[bb]:
-                tt = b.term(d)
-                if tt and tt["k"] == "switch":
-                    ad = sl.of_operand(tt["op"])
-                    if "discr" in ad and ({x for x in a if x.startswith("lid:")} & {x for x in ad if x.startswith("lid:")}):
-                        for v, tg in tt["targets"]:
-                            if b.dominates(tg, bb) and v < len(names):
-                                arm = names[v]
-            ok = constructed or arm == "Blocked"
-            ctx.instance("C13.verdict/slot-stores", b.path, {"constructed_blocked": constructed, "match_arm": arm}, "set_result only with a Blocked result", ok, cfg)
+            constructed = any(x.startswith("call:") and "TokenResult::new_blocked" in x for x in a) and not any(x.startswith("call:") and x.endswith(("new_should_wait", "new_pass", "perform_checking")) for x in a)
+            lids = {x for x in a if x.startswith("lid:")}
+            # on the paths that reach this store: which variants can the stored verdict still be?  (tests on that very value only)
+            possible = set()
+            for p in paths:
+                if p["outcome"] != ("store", bb):
+                    continue
+                vs = set(range(len(names)))
+                for l in p["lits"]:
+                    neg_ = False
+                    e = l
+                    while e[0] == "not":
+                        neg_ = not neg_
+                        e = e[1]
+                    if e[0] in ("disc", "disc2", "discin", "disc_other") and str(e[1]).startswith("verdict:") and (set(str(e[1])[8:].split(",")) & lids):
+                        if e[0] in ("disc", "disc2"):
+                            sel = {e[2]}
+                        elif e[0] == "discin":
+                            sel = set(e[2])
+                        else:
+                            sel = set(range(len(names))) - set(e[2])
+                        vs &= (set(range(len(names))) - sel) if neg_ else sel
+                possible |= vs
+            others = sorted(names[v] for v in possible if names[v] != "Blocked")
+            ok = constructed or (bool(possible) and not others)
+            ctx.instance("C13.verdict/slot-stores", b.path, {"constructed_blocked": constructed, "verdict_can_be": sorted(names[v] for v in possible)}, "set_result only with a Blocked result", ok, cfg)
             if not ok:
-                ctx.violation("C13.verdict", "C13.verdict|slot-stores|%s|%s" % (b.impl_self.replace("core::", "", 1), arm or "unknown"),
-                              "%s stores a %s verdict in the context: the entry is admitted but no statistic slot is told pass or blocked" % (b.impl_self, arm or "non-Blocked"), b.loc(bb), config=cfg)
+                ctx.violation("C13.verdict", "C13.verdict|slot-stores|%s|%s" % (b.impl_self.replace("core::", "", 1), (others or ["unknown"])[0]),
+                              "%s stores a %s verdict in the context: the entry is admitted but no statistic slot is told pass or blocked" % (b.impl_self, "/".join(others) or "non-Blocked"), b.loc(bb), config=cfg)
     ctx.floor("C13.verdict", "set_result sites in the library's check slots", n, 4)
